@@ -2,15 +2,36 @@ package main
 
 import (
 	"fmt"
-
-	"github.com/golang/geo/s1"
-	"github.com/golang/geo/s2"
+	"math"
+	"math/rand"
 )
 
+func stToUV(s float64) float64 {
+	if s >= 0.5 {
+		return (1 / 3.) * (4*s*s - 1)
+	}
+	return (1 / 3.) * (1 - 4*(1-s)*(1-s))
+}
+func uvToST(u float64) float64 {
+	if u >= 0 {
+		return 0.5 * math.Sqrt(1+3*u)
+	}
+	return 1 - 0.5*math.Sqrt(1-3*u)
+}
 func main() {
-	c := s2.PointFromCoords(0.3, 0.5, -0.8)
-	a := s2.RegularLoop(c, s1.Angle(30*s1.Degree), 40)
-	b := s2.RegularLoop(c, s1.Angle(5*s1.Degree), 40)
-	fmt.Println("A.Contains(B):", a.Contains(b), " B.Contains(A):", b.Contains(a), " A.Intersects(B):", a.Intersects(b))
-	fmt.Println(s2.TurnAngle(s2.PointFromCoords(1, 0, 0), s2.PointFromCoords(1, 0, 1e-300), s2.PointFromCoords(1, 1e-300, -1e-300)), s2.TurnAngle(s2.PointFromCoords(1, 1e-300, -1e-300), s2.PointFromCoords(1, 0, 1e-300), s2.PointFromCoords(1, 0, 0)))
+	eps := math.Pow(2, -52)
+	worst := 0.0
+	var wu float64
+	r := rand.New(rand.NewSource(1))
+	for k := 0; k < 300000000; k++ {
+		u := r.Float64()*2 - 1
+		if k%3 == 0 {
+			u = math.Copysign(1-r.Float64()*1e-3, u)
+		}
+		d := math.Abs(stToUV(uvToST(u))-u) / eps
+		if d > worst {
+			worst, wu = d, u
+		}
+	}
+	fmt.Println(worst, wu)
 }
